@@ -30,7 +30,7 @@ RULE = (
     "without min_utxo, 0-2 extra outputs, lowered from source; min_fee_coefficient in {0,1,44,1000}, constant in "
     "{0,155381,10^6}, extra_fees in {None,0,1,5000,2*10^5,1.2*10^6,4999999,5*10^6,5000001,7.5*10^6,2.5*10^7,10^9,2^32,2^40}; the single input amount is aimed at CBOR width boundaries of the "
     "change output and of the fee (24, 2^8, 2^16, 2^32) with jitter, where fee oscillation lives; max rounds in "
-    "{0,3,10}. Non-trivial = at least two passes were recorded; distinct = distinct (template, pparams, store, quantity)"
+    "{0,3,10}; a size-fees probe (eval_size_fees itself on lengths 0..16384 and parameters from the edges of u64: 448 cases). Non-trivial = at least two passes were recorded; distinct = distinct (template, pparams, store, quantity)"
 )
 ASSUMPTIONS = ["the recorded trace is complete: every compile call of the real loop goes through the wrapper",
                "errors raised inside a pass before compile (e.g. InputNotResolved) end the trace; only their class is compared"]
